@@ -154,6 +154,11 @@ func parseContractText(w *World, pkgPath, file string, src []byte) error {
 			key := c.Key()
 			if c.Extern {
 				key = name
+				if pkgPath != "" {
+					// an extern declared in a package's contract file abstracts the callee only in
+					// the functions of that package (spec/externs.spec is global)
+					key = name + "@" + pkgPath
+				}
 			}
 			if _, dup := w.Contracts[key]; dup {
 				return fmt.Errorf("%s:%d: duplicate contract for %s", file, l.no, key)
